@@ -6,8 +6,11 @@ F = "peg_parser/tokenize.py"
 ST = {"state": "obj:TokenizerState"}
 
 C(f"{F}:TokenizerState.move_next_line", params={"self": "obj:TokenizerState", "readline": "linesrc"},
-  ensures=["self.last_line == old(self.line)", "self.lnum == old(self.lnum) + 1", "self.pos == 0", "self.max == len(self.line)"],
-  modifies=["self.last_line", "self.line", "self.lnum", "self.pos", "self.max"], raises=[], properties=["C03", "C08"])
+  ensures=["self.last_line == old(self.line)", "self.lnum == old(self.lnum) + 1", "self.pos == 0", "self.max == len(self.line)",
+           # A3: a line is consumed iff one is left; '' signals the end of input
+           "implies(old(lines_left(readline)) > 0, lines_left(readline) == old(lines_left(readline)) - 1 and len(self.line) > 0)",
+           "implies(old(lines_left(readline)) <= 0, lines_left(readline) == old(lines_left(readline)) and self.line == '')"],
+  modifies=["self.last_line", "self.line", "self.lnum", "self.pos", "self.max", "readline"], raises=[], properties=["C03", "C08"])
 
 NS_REQ = ["state.pos == 0", "state.max == len(state.line)", "indents_wf(state.indents)", "state.lnum >= 1"]
 
@@ -43,3 +46,62 @@ C(f"{F}:next_statement", params=ST, generator=True, returns=None, requires=NS_RE
                      " and all(yielded[j].type == Token.DEDENT and yielded[j].start == (state.lnum, state.pos) and yielded[j].end == (state.lnum, state.pos) for j in range(len(yielded))))"],
              "dec": "len(state.indents)"}},
   modifies=["state.pos", "state.indents"], raises=["IndentationError"], properties=["C03", "C08", "C09", "C01"])
+
+NL_COND = "(len(state.last_line) > 0 and state.last_line[len(state.last_line) - 1] not in '\\r\\n' and not state.last_line.strip().startswith('#'))"
+
+C(f"{F}:next_end_tokens", params=ST, generator=True, requires=["indents_wf(state.indents)"],
+  ensures=[
+      # C08: implicit NEWLINE iff the last line lacks a terminator (and is not a comment line); one DEDENT per open level; one ENDMARKER, last
+      f"len(yielded) == (1 if {NL_COND} else 0) + (len(state.indents) - 1) + 1",
+      "yielded[len(yielded) - 1].type == Token.ENDMARKER",
+      f"implies({NL_COND}, yielded[0].type == Token.NEWLINE and yielded[0].string == '' and yielded[0].start == (state.lnum - 1, len(state.last_line)))",
+      f"all(yielded[j].type == Token.DEDENT for j in range((1 if {NL_COND} else 0), len(yielded) - 1))",
+      "all(yielded[j].type != Token.ENDMARKER for j in range(0, len(yielded) - 1))",
+  ],
+  loops={0: {"inv": [f"len(yielded) == (1 if {NL_COND} else 0) + _i",
+                     f"implies({NL_COND}, yielded[0].type == Token.NEWLINE and yielded[0].string == '' and yielded[0].start == (state.lnum - 1, len(state.last_line)))",
+                     f"all(yielded[j].type == Token.DEDENT for j in range((1 if {NL_COND} else 0), len(yielded)))"]}},
+  raises=[], properties=["C08", "C03"])
+
+
+SCAN_REQ = ["0 <= state.pos <= state.max", "state.max == len(state.line)", "state.end_progs.n >= 0"]
+SCAN_MOD = ["state.pos", "state.parenlev", "state.continued", "state.end_progs.n"]
+
+C(f"{F}:handle_end_progs", params=ST, generator=True, verify=False,
+  why_assumed="string / f-string continuation: regex matching and a list of mutable frames (stage 2 of the tokenize contracts)",
+  requires=SCAN_REQ, ensures=["state.pos >= old(state.pos)", "state.pos <= state.max", "state.end_progs.n >= 0"],
+  raises_when={"TokenError": "state.end_progs.n > 0 and state.pos == 0 and state.line == ''"},
+  modifies=SCAN_MOD, raises=["TokenError"], properties=["C03", "C08"])
+
+C(f"{F}:next_psuedo_matches", params=ST, returns="opt[Tok]", verify=False,
+  why_assumed="master-regex dispatch (re.Match objects): bounded stand-in + E3 lemmas (epsilon-freeness gives the progress clause)",
+  requires=SCAN_REQ, ensures=["state.pos >= old(state.pos)", "state.pos <= state.max", "state.end_progs.n >= 0",
+                              "implies(not is_none(result), state.pos > old(state.pos))"],
+  modifies=SCAN_MOD, may_raise=["TokenError"], raises=["TokenError"], properties=["C03", "C08"])
+
+C(f"{F}:_tokenize", params={"readline": "linesrc"}, generator=True,
+  ensures=["len(yielded) > 0", "yielded[len(yielded) - 1].type == Token.ENDMARKER"],       # C08: the stream ends with an ENDMARKER
+  loops={
+      # outer loop over lines: every iteration consumes a line; at end of input the body breaks or raises (C03)
+      0: {"inv": ["indents_wf(state.indents)", "state.lnum >= 0", "state.end_progs.n >= 0", "lines_left(readline) >= 0"],
+          "dec": "2 * lines_left(readline) + (1 if len(state.line) > 0 else 0)",
+          "havoc": ["state.pos", "state.max", "state.line", "state.last_line", "state.lnum", "state.parenlev", "state.continued",
+                    "state.end_progs.n", "state.indents", "readline"]},
+      # inner scan loop: the cursor strictly advances (this is the obligation the `pos` bug violated)
+      1: {"inv": ["0 <= state.pos <= state.max", "state.max == len(state.line)", "indents_wf(state.indents)", "state.end_progs.n >= 0",
+                  "state.lnum >= 1", "lines_left(readline) >= 0", "len(state.line) > 0"],
+          "dec": "state.max - state.pos"}},
+  raises=["TokenError", "IndentationError"], properties=["C03", "C08"])
+
+
+TS = {"self": "obj:TokenizerState"}
+for nm, kind in (("in_braces", 2), ("in_fstring", 1), ("in_colon", 3)):
+    C(f"{F}:TokenizerState.{nm}", params=TS, returns="bool", pure=True, verify=False,
+      why_assumed="one-line wrapper of in_mode(); mode classes are abstracted to kinds 1=ModeMiddle 2=ModeInBraces 3=ModeInColon",
+      ensures=[f"result == (self.end_progs.n > 0 and self.end_progs.top.mode_kind == {kind})"], properties=["C03", "C10"])
+
+# C03: end of input inside a string / f-string / replacement field must end the scan with TokenError (the outer loop of
+# _tokenize relies on exactly this clause of handle_end_progs' contract)
+C(f"{F}:handle_end_progs#eof", params=ST, generator=True,
+  requires=["state.end_progs.n > 0", "state.pos == 0", "state.line == ''", "state.max == 0"],
+  always_raises=True, raises=["TokenError"], properties=["C03"])
